@@ -109,6 +109,40 @@ Theorem adds_exactly_bulk : forall s d b labs d',
 Proof. exact adds_exactly_bulk_lemma. Qed.
 Print Assumptions adds_exactly_bulk.
 
+(* 4b. ... with the documented values: every value column of the written row holds the argument passed for the
+   parameter that feeds it (column -> parameter generated from the AST of create.py), else the literal default of
+   the signature, else (constant columns) None; columns computed by the function are excluded (Derived) *)
+Theorem written_row_values_single : forall s d a labs d',
+  create1 s d a = (Ok labs, d') ->
+  exists lab r, labs = [lab] /\ tab d' (s_table s) = tab d (s_table s) ++ [r] /\ r_label r = lab /\
+                r_vals r = row_values s a.
+Proof. exact written_values_single_lemma. Qed.
+Print Assumptions written_row_values_single.
+
+Theorem written_row_values_bulk : forall s d b labs d',
+  create_bulk s d b = (Ok labs, d') ->
+  exists rows, tab d' (s_table s) = tab d (s_table s) ++ rows /\ labels rows = labs /\
+               forall r, In r rows -> exists a, In a (b_rows b) /\ r_vals r = row_values s a.
+Proof. exact written_values_bulk_lemma. Qed.
+Print Assumptions written_row_values_bulk.
+
+Theorem value_cells_are_arguments_or_defaults : forall s a col v, In (col, v) (row_values s a) ->
+  exists src, In (col, src) (s_cols s) /\
+    match src with
+    | FromParam p | BoolOf p => (exists x, get p (a_vals a) = Some x /\ v = x)
+                                \/ (get p (a_vals a) = None /\ get p (s_ndefaults s) = Some v)
+    | ConstNone => v = "null"
+    | Derived => False
+    end.
+Proof. exact value_cells_lemma. Qed.
+Print Assumptions value_cells_are_arguments_or_defaults.
+
+Theorem value_column_written : forall s a col p v,
+  (In (col, FromParam p) (s_cols s) \/ In (col, BoolOf p) (s_cols s)) -> arg_value s a p = Some v ->
+  In (col, v) (row_values s a).
+Proof. exact value_column_written_lemma. Qed.
+Print Assumptions value_column_written.
+
 (* 5. bulk = left fold of the single twin over the rows *)
 Theorem bulk_eq_fold_single : forall s d b labs d',
   no_self_ref s = true -> Forall (fun a => a_reg_std a = false) (b_rows b) ->
@@ -186,6 +220,43 @@ Proof.
 Qed.
 Print Assumptions generated_full_referential_integrity.
 
+(* the generated column maps: every optional parameter that feeds a column has a canonical default; the only
+   columns computed by the function are the std-type parameters of create_pipe(s) (their values: C19
+   std_type_reaches_pipe_unchanged), the inferred ext-grid-like type and the clamped storage level *)
+Definition derived_cols (s : schema) : list string :=
+  map fst (filter (fun cs => match snd cs with Derived => true | _ => false end) (s_cols s)).
+Theorem generated_derived_columns_only_known :
+  forallb (fun s => subset_str (derived_cols s)
+                      (if String.eqb (s_table s) "pipe" then ["inner_diameter_mm"; "outer_diameter_mm"; "k_mm"; "u_w_per_m2k"]
+                       else if s_eg s then ["type"]
+                       else if String.eqb (s_fn s) "create_mass_storage" then ["init_m_stored_kg"] else [])) all_sigs = true
+  /\ derived_cols sig_create_pipe_from_parameters = [] /\ derived_cols sig_create_pipes_from_parameters = [].
+Proof. vm_compute. repeat split; reflexivity. Qed.
+Print Assumptions generated_derived_columns_only_known.
+
+(* "as documented": every argument lands in the column that carries its name (plural parameter of a bulk function:
+   the singular column); the only rename is new_std_type_name -> std_type *)
+Definition named_after (col p : string) : bool :=
+  String.eqb col p || String.eqb (col ++ "s") p || (String.eqb col "std_type" && String.eqb p "new_std_type_name").
+Theorem generated_columns_named_after_parameters :
+  forallb (fun s => forallb (fun cs => match snd cs with FromParam p | BoolOf p => named_after (fst cs) p | _ => true end)
+                            (s_cols s)) all_sigs = true.
+Proof. vm_compute. reflexivity. Qed.
+Print Assumptions generated_columns_named_after_parameters.
+
+(* bulk and single twin write the same columns, fed in the same way (argument / constant / computed) *)
+Definition same_kind (x y : colsrc) : bool :=
+  match x, y with
+  | Derived, Derived | ConstNone, ConstNone => true
+  | (FromParam _ | BoolOf _), (FromParam _ | BoolOf _) => true
+  | _, _ => false end.
+Definition cols_included (a b : schema) : bool :=
+  forallb (fun x => existsb (fun y => String.eqb (fst x) (fst y) && same_kind (snd x) (snd y)) (s_cols b)) (s_cols a).
+Theorem generated_twins_same_columns :
+  forallb (fun pr => cols_included (fst pr) (snd pr) && cols_included (snd pr) (fst pr)) twins = true.
+Proof. vm_compute. reflexivity. Qed.
+Print Assumptions generated_twins_same_columns.
+
 (* no create function can fail after its row write, except (geodata handling, known findings) *)
 Theorem generated_late_failures_only_known :
   subset_str (late_fns all_sigs)
@@ -208,7 +279,8 @@ Print Assumptions generated_twin_defaults_equal.
 (* ---- the hypotheses are satisfiable: a populated net, accepted and rejected calls ---- *)
 Definition ex_args (idx : option Z) (refs : list Z) : args :=
   {| a_index := idx; a_refvals := refs; a_et := Some TJ; a_std := "80_GGG"; a_reg_std := false;
-     a_pt_null := false; a_invalid := false; a_late_bad := false; a_pay := 0 |}.
+     a_pt_null := false; a_invalid := false; a_late_bad := false; a_vals := [("mdot_kg_per_s", "1"); ("scaling", "2")];
+     a_pay := 0 |}.
 Definition ex_calls : list call :=
   [Bulk sig_create_junctions {| b_index := Some [7; 3; 5]; b_rows := [ex_args None []; ex_args None []; ex_args None []]; b_len_ok := true |};
    Single sig_create_pipe (ex_args None [7; 3]);
@@ -216,7 +288,7 @@ Definition ex_calls : list call :=
    Single sig_create_sink (ex_args None [4]);                 (* missing junction: rejected *)
    Bulk sig_create_sinks {| b_index := None; b_rows := [ex_args None [3]; ex_args None [5]]; b_len_ok := true |};
    Single sig_create_valve {| a_index := None; a_refvals := [7; 0]; a_et := Some TP; a_std := ""; a_reg_std := false;
-                              a_pt_null := false; a_invalid := false; a_late_bad := false; a_pay := 0 |}].
+                              a_pt_null := false; a_invalid := false; a_late_bad := false; a_vals := []; a_pay := 0 |}].
 Example ex_run_tables :
   let d := run (empty_db [("pipe", "80_GGG")]) ex_calls in
   (labels (tab d "junction"), labels (tab d "pipe"), labels (tab d "sink"), view d "valve")
@@ -225,7 +297,7 @@ Proof. vm_compute. reflexivity. Qed.
 Example ex_late_hypotheses :
   exists d', create1 sig_create_junction (empty_db [])
                {| a_index := None; a_refvals := []; a_et := None; a_std := ""; a_reg_std := false; a_pt_null := false;
-                  a_invalid := false; a_late_bad := true; a_pay := 0 |} = (Err ELate, d')
+                  a_invalid := false; a_late_bad := true; a_vals := []; a_pay := 0 |} = (Err ELate, d')
              /\ labels (tab d' "junction") = [0].
 Proof. eexists. vm_compute. split; reflexivity. Qed.
 Example ex_bulk_fold :
@@ -234,3 +306,10 @@ Example ex_bulk_fold :
      {| b_index := None; b_rows := [ex_args None [0]; ex_args None [1]]; b_len_ok := true |}
   <> inl ELen.
 Proof. vm_compute. discriminate. Qed.
+
+(* value columns of a created sink: passed arguments, signature defaults, bool(in_service) *)
+Example ex_values :
+  map r_vals (tab (run (empty_db []) [Bulk sig_create_junctions {| b_index := None; b_rows := [ex_args None []]; b_len_ok := true |};
+                                      Single sig_create_sink (ex_args None [0])]) "sink")
+  = [[("name", "null"); ("mdot_kg_per_s", "1"); ("scaling", "2"); ("in_service", "true"); ("type", "s:sink")]].
+Proof. vm_compute. reflexivity. Qed.
